@@ -108,3 +108,14 @@ print("decoder mismatches",bad)
 print("----")
 res,d=run('FAULT REACTION ACTIVE','FAULT',3,0)
 print(res,d.trace,d.reads)
+print("---- per-read timing of automatic transitions (delay counted in individual statusword uploads)")
+import collections
+out = collections.Counter(); exs = {}
+for start in ('QUICK STOP ACTIVE', 'NOT READY TO SWITCH ON', 'FAULT REACTION ACTIVE'):
+    for target in ('SWITCH ON DISABLED', 'READY TO SWITCH ON', 'SWITCHED ON', 'OPERATION ENABLED'):
+        for delay in range(0, 40):
+            res, d = run(start, target, delay, 0, qs_auto=True)
+            ok = res == "ok" and d.state == target
+            k = (start, target, "ok" if ok else res[:45])
+            out[k] += 1; exs.setdefault(k, (delay, d.trace))
+for k, n in sorted(out.items()): print(n, k, exs[k])
